@@ -31,19 +31,20 @@ theorem full_builtin2 (σ : ArgMap) (fee : Int) (ι : InputMap) (b : BKind) (x y
 
 theorem denotes_add {ra rb : Expr} {da db : AssetClass → Int} (ha : Denotes ra da) (hb : Denotes rb db)
     (hfit : ∀ k, IExp.Small (da k + db k)) :
-    ∃ r, reduceBuiltin .add [ra, rb] = .ok r ∧ Denotes r (fun k => da k + db k) := by
+    ∃ r, reduceBuiltin .add [ra, rb] = .ok r ∧ Denotes r (fun k => da k + db k) ∧ RForm r := by
   obtain ⟨_, va, hva, hama⟩ := ha
   obtain ⟨_, vb, hvb, hamb⟩ := hb
   have hf : ∀ k', inI128 (amt va k' + amt vb k') = true := fun k' => by
     rw [hama k', hamb k']; exact small_i128 (hfit k')
   have hok := arithAdd_ok hva hvb hf
-  refine ⟨assetsNode (retainNZ (addRaw va vb)), by simp only [reduceBuiltin, hok], isConstant_assetsNode _, ?_⟩
+  refine ⟨assetsNode (retainNZ (addRaw va vb)), by simp only [reduceBuiltin, hok], ⟨isConstant_assetsNode _, ?_⟩,
+    RForm_add hva hvb hf⟩
   obtain ⟨c, hc, hamt⟩ := C01_assets_add hva hvb hok
   exact ⟨c, hc, fun k' => by rw [hamt k', hama k', hamb k']⟩
 
 theorem denotes_sub {ra rb : Expr} {da db : AssetClass → Int} (ha : Denotes ra da) (hb : Denotes rb db)
     (hnb : ∀ k, IExp.Small (db k)) (hfit : ∀ k, IExp.Small (da k - db k)) :
-    ∃ r, reduceBuiltin .sub [ra, rb] = .ok r ∧ Denotes r (fun k => da k - db k) := by
+    ∃ r, reduceBuiltin .sub [ra, rb] = .ok r ∧ Denotes r (fun k => da k - db k) ∧ RForm r := by
   obtain ⟨_, va, hva, hama⟩ := ha
   obtain ⟨_, vb, hvb, hamb⟩ := hb
   have hneg : ∀ k', inI128 (- amt vb k') = true := fun k' => by
@@ -61,8 +62,9 @@ theorem denotes_sub {ra rb : Expr} {da db : AssetClass → Int} (ha : Denotes ra
     unfold arithSub
     simp only [hnegok, ok_bind, haddok]
   obtain ⟨c, hc, hamt⟩ := C01_assets_sub hva hvb hok
-  exact ⟨_, by simp only [reduceBuiltin, hok], isConstant_assetsNode _, c, hc,
-    fun k' => by rw [hamt k', hama k', hamb k']⟩
+  exact ⟨_, by simp only [reduceBuiltin, hok], ⟨isConstant_assetsNode _, c, hc,
+    fun k' => by rw [hamt k', hama k', hamb k']⟩, RForm_add hva hnb' (fun k' => by
+      rw [hnamt k']; have := hsub k'; rwa [Int.sub_eq_add_neg] at this)⟩
 
 /-! ### the expressions -/
 
@@ -132,16 +134,16 @@ theorem change_value (s : Scope) (σ : ArgMap) (ints : String → Int) (cls : St
     (assigned : String → List UtxoMeta) :
     ∀ (c : CExp), c.OK s σ ints cls ctx fee ι assigned →
       ∃ N, ∀ n, N ≤ n → ∃ t, lowerE s n ctx c.toL = .ok t ∧
-        ∀ m, N ≤ m → ∃ r, reduceF m (full σ fee ι t) = .ok r ∧ Denotes r (c.den ints cls fee assigned)
+        ∀ m, N ≤ m → ∃ r, reduceF m (full σ fee ι t) = .ok r ∧ Denotes r (c.den ints cls fee assigned) ∧ RForm r
   | .pure e, h => by
     obtain ⟨hs, ht, hf⟩ := h
     refine ⟨e.depth + 2, fun n hn => ?_⟩
     obtain ⟨t, hlow, hin, hred⟩ := lower_multi s σ ints cls ctx hl hA e hs ht hf (n - (e.depth + 2))
     rw [show e.depth + 2 + (n - (e.depth + 2)) = n by omega] at hlow
     refine ⟨t, hlow, fun m hm => ?_⟩
-    obtain ⟨r, hr, hd⟩ := hred (m - (e.depth + 2))
+    obtain ⟨r, hr, hd, hform⟩ := hred (m - (e.depth + 2))
     rw [show e.depth + 2 + (m - (e.depth + 2)) = m by omega] at hr
-    exact ⟨r, by rw [full_inert σ fee ι hin]; exact hr, hd⟩
+    exact ⟨r, by rw [full_inert σ fee ι hin]; exact hr, hd, hform⟩
   | .fees, h => by
     obtain ⟨hres, hsm⟩ := h
     refine ⟨3, fun n hn => ⟨.node (.param .expectFees) [], ?_, fun m hm => ?_⟩⟩
@@ -149,7 +151,7 @@ theorem change_value (s : Scope) (σ : ArgMap) (ints : String → Int) (cls : St
       simp [CExp.toL, lowerE, hl, hres]
     · have hd := single_entry (.leaf .none) (.leaf .none) ⟨_, rfl⟩ ⟨_, rfl⟩ fee hsm
       rw [entryClass_none] at hd
-      refine ⟨.node .assets [.leaf .none, .leaf .none, .leaf (.number fee)], ?_, hd⟩
+      refine ⟨.node .assets [.leaf .none, .leaf .none, .leaf (.number fee)], ?_, hd, RForm.ada _⟩
       obtain ⟨m', rfl⟩ : ∃ m', m = (m' + 2) + 1 := ⟨m - 3, by omega⟩
       simp [full, applyFees, feeExpr, applyInputs, applyArgs, reduceF]
   | .input x, h => by
@@ -163,7 +165,8 @@ theorem change_value (s : Scope) (σ : ArgMap) (ints : String → Int) (cls : St
     · simp [CExp.toL, lowerE, hl, hres, hq, ha]
     · obtain ⟨ga, hamt⟩ := sumUtxo_spec (assigned x) [] a Good_nil hgood hsum
       obtain ⟨c, hc, _, hcamt⟩ := reread_canonical ga
-      refine ⟨assetsNode a, ?_, isConstant_assetsNode a, c, hc, fun k => ?_⟩
+      refine ⟨assetsNode a, ?_, ⟨isConstant_assetsNode a, c, hc, fun k => ?_⟩,
+        RForm.canon a ga (sumUtxo_NZ _ _ _ NZ_nil hsum)⟩
       · obtain ⟨m', rfl⟩ : ∃ m', m = (m' + 2) + 1 := ⟨m - 3, by omega⟩
         simp [full, applyFees, applyFeesL, applyInputs, applyInputsL, applyArgs, applyArgsL, hlk, reduceF, mapMO,
           isConstantL, isConstant, reduceCoerce, intoAssets, hsum]
@@ -177,10 +180,10 @@ theorem change_value (s : Scope) (σ : ArgMap) (ints : String → Int) (cls : St
     obtain ⟨tb, hlb, hrb⟩ := hB' n' (by omega)
     refine ⟨builtin .add [ta, tb], by simp only [CExp.toL, lowerE, hla, hlb, ok_bind], fun m hm => ?_⟩
     obtain ⟨m', rfl⟩ : ∃ m', m = m' + 1 := ⟨m - 1, by omega⟩
-    obtain ⟨ra, h1, da⟩ := hra m' (by omega)
-    obtain ⟨rb, h2, db⟩ := hrb m' (by omega)
-    obtain ⟨r, hr, hd⟩ := denotes_add da db h.2.2
-    refine ⟨r, ?_, hd⟩
+    obtain ⟨ra, h1, da, _⟩ := hra m' (by omega)
+    obtain ⟨rb, h2, db, _⟩ := hrb m' (by omega)
+    obtain ⟨r, hr, hd, hform⟩ := denotes_add da db h.2.2
+    refine ⟨r, ?_, hd, hform⟩
     rw [full_builtin2, reduce_binary_const _ .add (by decide) _ _ ra rb h1 h2 da.1 db.1]
     exact hr
   | .sub a b, h => by
@@ -192,10 +195,10 @@ theorem change_value (s : Scope) (σ : ArgMap) (ints : String → Int) (cls : St
     obtain ⟨tb, hlb, hrb⟩ := hB' n' (by omega)
     refine ⟨builtin .sub [ta, tb], by simp only [CExp.toL, lowerE, hla, hlb, ok_bind], fun m hm => ?_⟩
     obtain ⟨m', rfl⟩ : ∃ m', m = m' + 1 := ⟨m - 1, by omega⟩
-    obtain ⟨ra, h1, da⟩ := hra m' (by omega)
-    obtain ⟨rb, h2, db⟩ := hrb m' (by omega)
-    obtain ⟨r, hr, hd⟩ := denotes_sub da db h.2.2.1 h.2.2.2
-    refine ⟨r, ?_, hd⟩
+    obtain ⟨ra, h1, da, _⟩ := hra m' (by omega)
+    obtain ⟨rb, h2, db, _⟩ := hrb m' (by omega)
+    obtain ⟨r, hr, hd, hform⟩ := denotes_sub da db h.2.2.1 h.2.2.2
+    refine ⟨r, ?_, hd, hform⟩
     rw [full_builtin2, reduce_binary_const _ .sub (by decide) _ _ ra rb h1 h2 da.1 db.1]
     exact hr
 
@@ -207,7 +210,7 @@ theorem C01_source_to_value (s : Scope) (σ : ArgMap) (ints : String → Int) (c
     (hl : ctx.lvl ≠ 0) (ha : ctx.asset = true) (hA : AdaBuiltin s) (fee : Int) (ι : InputMap)
     (assigned : String → List UtxoMeta) (c : CExp) (h : c.OK s σ ints cls ctx fee ι assigned) :
     ∃ N, ∀ n, N ≤ n → ∃ t, lowerE s n ctx c.toL = .ok t ∧
-      ∀ m, N ≤ m → ∃ r, reduceF m (full σ fee ι t) = .ok r ∧ Denotes r (c.den ints cls fee assigned) :=
+      ∀ m, N ≤ m → ∃ r, reduceF m (full σ fee ι t) = .ok r ∧ Denotes r (c.den ints cls fee assigned) ∧ RForm r :=
   change_value s σ ints cls ctx hl ha hA fee ι assigned c h
 
 /-- The order of the stages does not matter (C07): the same holds for the pipeline's order. -/
